@@ -102,7 +102,13 @@ is_6531_local (const char *start, const char *end)
             qpair = 0;
         else {
             switch (ch) {
-            case '"':   quote = 0; break;
+            case '"': {
+                /* closing quote must be followed by '.' or the end */
+                int pos = utf8_decode_at_byte(&u);
+                if ((start + pos + 1) < end && start[pos + 1] != '.')
+                    return inverse(EEAV_LPART_MISPLACED_QUOTE);
+                quote = 0;
+            } break;
             case '\\':  qpair = 1; break;
 #ifdef RFC6531_FOLLOW_RFC5322
             /* the next chars are not allowed in qtext: */
